@@ -16,4 +16,20 @@ def c10(check):
           "DESIGN.md §4 C10")
 
 
-EXTRA = [c10]
+def c11(check):
+    check("C11", "fault_enumeration",
+          "Quick tier: seeded search over restart histories - an uninterrupted reference run(T) against 2-4 segments that end by "
+          "returning or by a simulated process kill at an iteration boundary, restarted with restart=True under changing storage "
+          "mode / Klist_part / serial-or-simulated-ray and every directory listing order policy; every reported iteration is compared "
+          "with the reference. Plus kills before an arbitrary intercepted operation with torn-write cuts (relaxed oracle: restart may "
+          "raise, never report wrong data). Thorough tier: additionally, for each sampled small history EVERY intercepted operation of "
+          "the crashing segment (x torn-write cuts) is used as crash site in turn - exhaustive over the crash sites of that history, "
+          "sampled over histories.",
+          "Process-kill model (OS-handed bytes survive, part of the user buffer survives); power loss not modelled; a restarted segment "
+          "gets fresh objects but shares the interpreter; stub calculators with generic (tie-free) payload.",
+          "deterministic simulation with crash injection: seeded restart histories, crash-site sweep per history, uninterrupted "
+          "run as reference model, listing-order fault, minimised replay files",
+          "DESIGN.md §4 C11")
+
+
+EXTRA = [c10, c11]
